@@ -3,10 +3,9 @@
    _recordReadVec / _recordReadVecInPlace and of the _deserialize of Db, DbGrid, Table, Polygons, PolyElem,
    PolyLine2D, Faults, run by X::createFromNF on the BYTES of a file; monitors: bounds-checked stores (OOB),
    ghost allocation counter + cap (Throw), fuelled loops (Hang).
-   [hyp_now E f]   = the file is shorter than 2^31 bytes; E has at least the fixes present in the code NOW (C09_1, C09_2,
-                     C09_3 second hunk, C09_4 — cfg_now, the configuration the correspondence ties to /repo); its fuel exceeds
-                     |f|; its allocation cap is not below the proved bound.
-   [hyp_fixed E f] = the same plus the proposed fixes/C09_5 (cfg_fixed).
+   [hyp E f] = the file is shorter than 2^31 bytes; E is the code as it is NOW (cfg_fixed: the fixes C09_1 .. C09_5 and
+   C08_12 are in /repo; this is the configuration the correspondence of checks/C09.py ties to the real loaders); its
+   fuel exceeds |f|; its allocation cap is not below the proved bound.
    The statements quantify over ALL byte strings f. *)
 From Coq Require Import List ZArith QArith Bool.
 From Gst Require Import C09.Model C09.Readers C09.Spec C09.Witness C09.Proofs_prim C09.Proofs_loc C09.Proofs_wf C09.Proofs_top
@@ -14,61 +13,47 @@ From Gst Require Import C09.Model C09.Readers C09.Spec C09.Witness C09.Proofs_pr
 Import ListNotations.
 Local Open Scope Z_scope.
 
-(* ---------------------------------------------------------------- the code as it is now *)
 (* no reader ever stores outside a buffer *)
-Theorem C09_no_oob : forall E f, hyp_now E f -> all_loaders (fun A o => no_oob o) E f.
-Proof. exact main_no_oob. Qed.
+Theorem C09_no_oob : forall E f, hyp E f -> all_loaders (fun A o => no_oob o) E f.
+Proof. exact main_all_no_oob. Qed.
 Print Assumptions C09_no_oob.
 
-(* fuel |f|+1 is never exhausted: every loop consumes input or stops *)
-Theorem C09_total : forall E f, hyp_now E f -> all_loaders (fun A o => no_hang o) E f.
-Proof. exact main_total. Qed.
-Print Assumptions C09_total.
-
-(* Table, Polygons, PolyElem, PolyLine2D, Faults: clean outcome, allocation <= 256|f| + 4096 bytes, class invariant:
-   good_outcome wf b o  :=  clean o /\ 0 <= ghost_of o <= b /\ forall a, loaded o a -> wf a *)
-Theorem C09_alloc_bounded : forall E f, hyp_now E f ->
-  good_outcome wf_table (alloc_bound (flen f)) (load_Table E f) /\
-  good_outcome wf_polygons (alloc_bound (flen f)) (load_Polygons E f) /\
-  good_outcome wf_polyelem (alloc_bound (flen f)) (load_PolyElem E f) /\
-  good_outcome wf_polyline (alloc_bound (flen f)) (load_PolyLine2D E f) /\
-  good_outcome wf_faults (alloc_bound (flen f)) (load_Faults E f).
-Proof. exact main_five. Qed.
+(* allocation requested while reading is bounded by the file length: 256|f| + 4096 bytes
+   (DbGrid: 16|f|^2 + 512|f| + 8192, the two ndim x ndim rotation matrices) *)
+Theorem C09_alloc_bounded : forall E f, hyp E f ->
+  ghost_of (load_Db E f) <= alloc_bound (flen f) /\ ghost_of (load_DbGrid E f) <= alloc_bound_grid (flen f) /\
+  ghost_of (load_Table E f) <= alloc_bound (flen f) /\ ghost_of (load_Polygons E f) <= alloc_bound (flen f) /\
+  ghost_of (load_PolyElem E f) <= alloc_bound (flen f) /\ ghost_of (load_PolyLine2D E f) <= alloc_bound (flen f) /\
+  ghost_of (load_Faults E f) <= alloc_bound (flen f).
+Proof. exact main_all_alloc. Qed.
 Print Assumptions C09_alloc_bounded.
 
-(* all seven loaders: the only thing that can still escape is std::bad_alloc out of Db::setLocatorByUID (site 16) *)
-Theorem C09_no_exception_partial : forall E f, hyp_now E f -> all_loaders (fun A o => safe_outcome o) E f.
-Proof. exact main_only_throw16. Qed.
-Print Assumptions C09_no_exception_partial.
-
-(* in particular for every interruption point of a write *)
-Corollary C09_prefix_closed : forall E f n, hyp_now E (firstn n f) -> all_loaders (fun A o => safe_outcome o) E (firstn n f).
-Proof. exact main_prefix. Qed.
-Print Assumptions C09_prefix_closed.
-
-(* what the current code still falsifies for Db / DbGrid: a locator rank read from the file is used as a size
-   ('x2000000000': 8 GB requested; 'x100001': 400 kB for a 21-byte file) and pads the role list with UID 0 ('x3' on a single column: roles [0;0;0]) *)
-Theorem C09_alloc_bounded_refuted : load_Db (now_env_of w_locsize) w_locsize = Crashed (Throw 1 16) /\
-  alloc_bound (flen w_locghost) < ghost_of (load_Db (now_env_of w_locghost) w_locghost).
-Proof. exact (conj now_locsize now_locsize_ghost). Qed.
-Print Assumptions C09_alloc_bounded_refuted.
-Theorem C09_wellformed_refuted : exists d g, load_Db (now_env_of w_locrank) w_locrank = Loaded d g /\ ~ wf_db d.
-Proof. exact now_locrank. Qed.
-Print Assumptions C09_wellformed_refuted.
-
-(* ---------------------------------------------------------------- with the proposed fixes/C09_5 *)
-(* Db and DbGrid: clean, allocation bounded (DbGrid: 16|f|^2 + 512|f| + 8192, the two ndim x ndim rotation matrices), well formed *)
-Theorem C09_wellformed : forall E f, hyp_fixed E f ->
-  good_outcome wf_db (alloc_bound (flen f)) (load_Db E f) /\
-  good_outcome wf_dbgrid (alloc_bound_grid (flen f)) (load_DbGrid E f).
-Proof. exact main_db_fixed. Qed.
-Print Assumptions C09_wellformed.
-Theorem C09_no_exception : forall E f, hyp_fixed E f -> all_loaders (fun A o => clean o) E f.
-Proof. exact main_clean_fixed. Qed.
+(* no allocation fails, no size is negative, no assertion trips: nothing escapes the loader *)
+Theorem C09_no_exception : forall E f, hyp E f -> all_loaders (fun A o => no_throw o) E f.
+Proof. exact main_all_no_throw. Qed.
 Print Assumptions C09_no_exception.
 
-(* ---------------------------------------------------------------- any configuration *)
-(* _recordRead: returns, consumes a suffix, allocates nothing *)
+(* fuel |f|+1 is never exhausted: every loop consumes input or stops *)
+Theorem C09_total : forall E f, hyp E f -> all_loaders (fun A o => no_hang o) E f.
+Proof. exact main_all_total. Qed.
+Print Assumptions C09_total.
+
+(* a successful read returns an object that satisfies the class invariant (Db: rectangular table, names pairwise different,
+   uid table = columns, role lists without repetition, made of columns, pairwise disjoint; DbGrid: + samples = grid nodes) *)
+Theorem C09_wellformed : forall E f, hyp E f ->
+  (forall d, loaded (load_Db E f) d -> wf_db d) /\ (forall x, loaded (load_DbGrid E f) x -> wf_dbgrid x) /\
+  (forall t, loaded (load_Table E f) t -> wf_table t) /\ (forall l, loaded (load_Polygons E f) l -> wf_polygons l) /\
+  (forall p, loaded (load_PolyElem E f) p -> wf_polyelem p) /\ (forall p, loaded (load_PolyLine2D E f) p -> wf_polyline p) /\
+  (forall l, loaded (load_Faults E f) l -> wf_faults l).
+Proof. exact main_all_wf. Qed.
+Print Assumptions C09_wellformed.
+
+(* in particular for every interruption point of a write *)
+Corollary C09_prefix_closed : forall E f n, hyp E (firstn n f) -> all_loaders (fun A o => clean o) E (firstn n f).
+Proof. exact main_all_prefix. Qed.
+Print Assumptions C09_prefix_closed.
+
+(* _recordRead, in any configuration: returns, consumes a suffix, allocates nothing *)
 Theorem C09_recordRead_total : forall m, reads m (record_word m).
 Proof. exact main_recordRead. Qed.
 Print Assumptions C09_recordRead_total.
@@ -92,34 +77,39 @@ Example C09_regression_before_fixes :
   load_Table (asis_env w_assert) w_assert = Crashed (Throw 3 31) /\
   load_Polygons (asis_env w_hang) w_hang = Crashed (Hang 43).
 Proof. exact asis_witnesses. Qed.
-(* ... fail cleanly now (each file is replayed on the real loader by checks/C09.py) *)
+(* ... and before C09_5 (cfg_pre5): a locator rank used as a size, role lists padded with UID 0 *)
+Example C09_regression_before_C09_5 :
+  load_Db (pre5_env w_locsize) w_locsize = Crashed (Throw 1 16) /\
+  alloc_bound (flen w_locghost) < ghost_of (load_Db (pre5_env w_locghost) w_locghost) /\
+  (exists d g, load_Db (pre5_env w_locrank) w_locrank = Loaded d g /\ ~ wf_db d) /\
+  (exists d g, load_Db (pre5_env w_filler) w_filler = Loaded d g /\ nth 0 (d_loc d) [] = [0; 1]).
+Proof. exact (conj now_locsize (conj now_locsize_ghost (conj now_locrank now_filler))). Qed.
+(* all of them fail cleanly now, declarations in any order still load
+   (each file is replayed on the real loader by checks/C09.py) *)
 Example C09_regression_now :
-  load_Db (now_env_of w_store_inplace) w_store_inplace = Failed 72 /\
-  load_Db (now_env_of w_store_vec) w_store_vec = Failed 40 /\
-  load_PolyLine2D (now_env_of w_store_poly) w_store_poly = Failed 32 /\
-  load_DbGrid (now_env_of w_gridread) w_gridread = Failed 124 /\
-  load_Db (now_env_of w_alloc) w_alloc = Failed 0 /\
-  load_Db (now_env_of w_negative) w_negative = Failed 0 /\
-  load_Table (now_env_of w_assert) w_assert = Failed 0 /\
-  load_Polygons (now_env_of w_hang) w_hang = Failed 0 /\
-  load_Db (now_env_of w_negnech) w_negnech = Failed 0 /\
-  load_DbGrid (now_env_of w_gridtrunc) w_gridtrunc = Failed 124.
-Proof. exact now_on_witnesses. Qed.
-(* fixes/C09_5 refuses ranks beyond the columns, fillers and doubly declared ranks; declarations in any order still load *)
-Example C09_nonvacuous_C09_5 :
+  load_Db (fix_env w_store_inplace) w_store_inplace = Failed 72 /\
+  load_Db (fix_env w_store_vec) w_store_vec = Failed 40 /\
+  load_PolyLine2D (fix_env w_store_poly) w_store_poly = Failed 32 /\
+  load_DbGrid (fix_env w_gridread) w_gridread = Failed 124 /\
+  load_Db (fix_env w_alloc) w_alloc = Failed 0 /\
+  load_Db (fix_env w_negative) w_negative = Failed 0 /\
+  load_Table (fix_env w_assert) w_assert = Failed 0 /\
+  load_Polygons (fix_env w_hang) w_hang = Failed 0 /\
+  load_Db (fix_env w_negnech) w_negnech = Failed 0 /\
+  load_DbGrid (fix_env w_gridtrunc) w_gridtrunc = Failed 124.
+Proof. exact fixed_on_witnesses2. Qed.
+Example C09_regression_now_locators :
   load_Db (fix_env w_locsize) w_locsize = Failed 72 /\ load_Db (fix_env w_locrank) w_locrank = Failed 72 /\
   load_Db (fix_env w_filler) w_filler = Failed 240 /\ load_Db (fix_env w_rank_dup) w_rank_dup = Failed 236 /\
-  load_Db (fix_env v_db_unordered) v_db_unordered = load_Db (now_env_of v_db_unordered) v_db_unordered /\
+  load_Db (fix_env v_db_unordered) v_db_unordered = load_Db (pre5_env v_db_unordered) v_db_unordered /\
   exists d g, load_Db (fix_env v_db_unordered) v_db_unordered = Loaded d g /\ nth 0 (d_loc d) [] = [1; 0] /\ wf_db_b d = true.
 Proof. exact fixed_on_locators. Qed.
-(* the hypotheses are satisfiable by the environments the runner uses, and valid files load to non-trivial objects *)
-Example C09_nonvacuous_hyp : hyp_now (now_env_of v_db) v_db /\ hyp_fixed (fix_env v_dbgrid) v_dbgrid.
-Proof.
-  exact (match envs_satisfy_hyps with conj a (conj b (conj c d)) => conj (conj c a) (conj d b) end).
-Qed.
+(* the hypothesis is satisfiable by the environment the runner uses, and valid files load to non-trivial objects *)
+Example C09_nonvacuous_hyp : hyp (fix_env v_db) v_db /\ hyp (fix_env v_dbgrid) v_dbgrid.
+Proof. exact envs_satisfy_hyps2. Qed.
 Example C09_nonvacuous_valid :
-  (exists d g, load_Db (now_env_of v_db) v_db = Loaded d g /\ load_Db (fix_env v_db) v_db = Loaded d g /\ load_Db (asis_env v_db) v_db = Loaded d g /\ d_ncol d = 2 /\ d_nech d = 3 /\ wf_db_b d = true) /\
-  (exists x g, load_DbGrid (now_env_of v_dbgrid) v_dbgrid = Loaded x g /\ load_DbGrid (fix_env v_dbgrid) v_dbgrid = Loaded x g /\ load_DbGrid (asis_env v_dbgrid) v_dbgrid = Loaded x g /\ d_nech (dg_db x) = 4 /\ wf_dbgrid_b x = true) /\
-  (exists t g, load_Table (now_env_of v_table) v_table = Loaded t g /\ load_Table (asis_env v_table) v_table = Loaded t g /\ t_nrows t = 2 /\ wf_table_b t = true) /\
-  (exists l g, load_Polygons (now_env_of v_polygons) v_polygons = Loaded l g /\ load_Polygons (asis_env v_polygons) v_polygons = Loaded l g /\ length l = 1%nat /\ wf_polygons_b l = true).
-Proof. exact valid_files_load. Qed.
+  (exists d g, load_Db (fix_env v_db) v_db = Loaded d g /\ load_Db (asis_env v_db) v_db = Loaded d g /\ d_ncol d = 2 /\ d_nech d = 3 /\ wf_db_b d = true) /\
+  (exists x g, load_DbGrid (fix_env v_dbgrid) v_dbgrid = Loaded x g /\ load_DbGrid (asis_env v_dbgrid) v_dbgrid = Loaded x g /\ d_nech (dg_db x) = 4 /\ wf_dbgrid_b x = true) /\
+  (exists t g, load_Table (fix_env v_table) v_table = Loaded t g /\ load_Table (asis_env v_table) v_table = Loaded t g /\ t_nrows t = 2 /\ wf_table_b t = true) /\
+  (exists l g, load_Polygons (fix_env v_polygons) v_polygons = Loaded l g /\ load_Polygons (asis_env v_polygons) v_polygons = Loaded l g /\ length l = 1%nat /\ wf_polygons_b l = true).
+Proof. exact valid_files_load2. Qed.
